@@ -33,6 +33,13 @@ LITERALS = [
     ("::std::string::String", "::std::string::String::from(\"x\")", "String:78"),
     ("i128", "170141183460469231731687303715884105727", None),
 ]
+# string literals whose text looks like code: they are values, never parsed
+for _txt in ["String::new()", "x.len()", "vec![1]", "1 + 2", "Default::default()", "::core::default::Default::default()",
+             "format!(\"a\")", "Self::new()", "7", "true", "u8", "", " ", "a, b", "{}", "(1, 2)"]:
+    _hex = _txt.encode().hex() or "~"
+    _lit = "\"%s\"" % _txt.replace("\\", "\\\\").replace("\"", "\\\"")
+    LITERALS.append(("::std::string::String", _lit, "String:" + _hex))
+    LITERALS.append(("&'static str", _lit, "str:" + _hex))
 # entries with expected None need a conversion the literal's natural type provides via Into (u8 -> u64 ...):
 LIT_FIX = {("u64", "5u8"): "u64:5", ("i64", "5i32"): "i64:5", ("f64", "1.5f32"): "f64:1.5",
            ("i128", "170141183460469231731687303715884105727"): None}
